@@ -107,12 +107,18 @@ func (c20Prop) Gen(seed uint64, tier string, i int) Case {
 	c.Engine = EngineCfg{Fallback: true, Opt: Pick(r, []string{"none", "default", "all"}), Procs: Pick(r, []int{2, 4, 8})}
 	c.Dataset = GenDataset(r.Fork(), c.Window, 0, 10, false, false)
 	g := &GenCfg{Avoid: mergeAvoid(), MaxDepth: 3, W: c.Window}
-	pool := []string{`sum by (a) (m0)`, `m0`, `rate(m0[1m])`, `sort_desc(m0)`, `m0 + on(a) m1`, `topk(2, m0)`, `max_over_time(m0[2m:30s])`, `m0 and m1`}
+	pool := []string{`sum by (a) (m0)`, `m0`, `rate(m0[1m])`, `sort_desc(m0)`, `m0 + on(a) m1`, `topk(2, m0)`, `max_over_time(m0[2m:30s])`, `m0 and m1`,
+		`sum_over_time(m0[5m])`, `rate(m0[10m])`, `count_over_time(m0[30s])`, `sum by (a) (increase(m1[3m]))`}
 	for k := 0; k < 4; k++ {
 		pool = append(pool, GenQuery(r.Fork(), g))
 	}
 	c.Queries = pool
 	c.Extra = map[string]any{"ops": float64(12 + r.Intn(39)), "hseed": float64(r.Uint64() % (1 << 50))}
+	if r.P(0.12) {
+		// a bad day of the storage: most queries of a longer history fail while their series are loaded
+		c.Extra["ops"] = float64(60 + r.Intn(30))
+		c.Extra["store_failures"] = 0.6
+	}
 	return c
 }
 
@@ -186,6 +192,42 @@ func (c20Prop) Check(c Case) Outcome {
 			if r.P(0.2) {
 				// options of this query only: the next query without options is back to the engine's settings
 				qcfg.QueryLookbackMs = Pick(r, []int64{1000, 30_000, 60_000, 420_001})
+			}
+			pFail := 0.06
+			if v, ok := c.Extra["store_failures"].(float64); ok {
+				pFail = v
+			}
+			if r.P(pFail) {
+				// the storage fails (or panics) while this query opens its querier or selects its series;
+				// the query must fail, and nothing of it may stay behind in the engine
+				f := Fault{Kind: Pick(r, []string{"err", "err", "panic-runtime", "panic-string"}), Call: Pick(r, []string{"Querier", "Select", "SS.Next"}), Series: -1, Nth: 1}
+				desc := fmt.Sprintf("op%d query `%s` %v with storage fault %s@%s", k, q, w, f.Kind, f.Call)
+				trace = append(trace, desc)
+				var res *promql.Result
+				func() {
+					defer func() {
+						if e := recover(); e != nil {
+							o.Add("panic-escaped", fmt.Sprintf("%s: a panic escaped Exec: %v", desc, e))
+						}
+					}()
+					withProcs(c.Engine.Procs, func() {
+						fq, err := NewQuery(long, store.WithFaults([]Fault{f}), qcfg, q, w)
+						if err != nil {
+							return
+						}
+						res = fq.Exec(context.Background())
+						fq.Close()
+					})
+				}()
+				o.Count("store_failures_injected", 1)
+				if res != nil && res.Err == nil && len(o.Violations) == 0 {
+					// the fault address may not be reached (e.g. a query without selectors): fine
+					o.Count("store_failures_not_reached", 1)
+				}
+				if !recheck(desc) {
+					return o
+				}
+				continue
 			}
 			desc := fmt.Sprintf("op%d query `%s` %v cancelled=%v lookback=%dms", k, q, w, cancelled, qcfg.QueryLookbackMs)
 			trace = append(trace, desc)
@@ -364,6 +406,15 @@ func c08Vocabulary() []c08Construct {
 			args = []string{"m0"}
 		}
 		out = append(out, c08Construct{Expr: fmt.Sprintf("%s(%s)", n, strings.Join(args, ", ")), Type: f.ReturnType, Feat: "fn:" + n})
+		// the same call with its selector argument in parentheses: still the same construct
+		for k, a := range args {
+			if strings.HasPrefix(a, "m0") || strings.HasPrefix(a, "m1") || strings.HasPrefix(a, "h_bucket") {
+				pa := append([]string(nil), args...)
+				pa[k] = "(" + a + ")"
+				out = append(out, c08Construct{Expr: fmt.Sprintf("%s(%s)", n, strings.Join(pa, ", ")), Type: f.ReturnType, Feat: "fn:" + n})
+				break
+			}
+		}
 		if f.Variadic != 0 && len(f.ArgTypes) > 0 {
 			switch n {
 			case "round":
@@ -521,6 +572,13 @@ func (c08Prop) Gen(seed uint64, tier string, i int) Case {
 // construct evaluated "approximately" (rounding mode, sign handling) differs from the reference.
 func c08Dataset() Dataset {
 	d := faultDataset()
+	// scraped off the evaluation grid: a sample's own timestamp differs from the step's
+	for si := range d.Series {
+		shift := int64(si%3) * 4_000
+		for k := range d.Series[si].Samples {
+			d.Series[si].Samples[k].T -= shift
+		}
+	}
 	vals := []float64{-3.5, -2.5, -0.5, 0.5, 2.5, -1.25, 7.5, -10, 0, 3}
 	for si := range d.Series {
 		if d.Series[si].Labels["__name__"] != "m1" {
